@@ -33,6 +33,29 @@ def suppress_logging():
         logging.disable(logging.NOTSET)
 
 
+@contextlib.contextmanager
+def preserve_logging_state():
+    """Restore the process-wide logging switches after SUT execution.
+
+    The SUT runs in the same process and may call ``logging.disable``, change the
+    root logger's level or install root handlers; without restoring them, Pynguin's
+    own log output changes for the rest of the run.
+
+    Yields:
+        Nothing; restores the logging switches on exit.
+    """
+    root = logging.getLogger()
+    disabled_level = root.manager.disable
+    root_level = root.level
+    root_handlers = list(root.handlers)
+    try:
+        yield
+    finally:
+        logging.disable(disabled_level)
+        root.setLevel(root_level)
+        root.handlers[:] = root_handlers
+
+
 class OutputSuppressionContext:
     """A context manager that suppresses stdout and stderr.
 
